@@ -39,8 +39,10 @@ def snapshot(b: gram.Built, g):
     alts = sorted(([b.index[p], [b.index[c] for c in cs]] for p, cs in g.alternatives.items()), key=lambda x: x[0])
     dist = sorted(((str(c05.sym_of(b, s)), g.distanceToTerminal[s]) for s in g.all_nodes))
     rec = c05.syms(b, g.recursive_prods)
-    weights = sorted((str(c05.sym_of(b, s)), w) for s, w in g.get_weights().items())
-    return {"alts": alts, "dist": dist, "rec": rec, "terminals": c05.syms(b, g.terminals),
+    # (weights that are not dyadic fractions move by an ulp when another grammar over the same classes re-normalises them:
+    # compared to 12 digits, the tolerance C19 grants re-extraction)
+    weights = sorted((str(c05.sym_of(b, s)), round(float(w), 12)) for s, w in g.get_weights().items())
+    return {"start": str(c05.sym_of(b, g.starting_symbol)), "alts": alts, "dist": dist, "rec": rec, "terminals": c05.syms(b, g.terminals),
             "nonterminals": c05.syms(b, g.non_terminals), "weights": weights, "nodes": c05.syms(b, g.all_nodes)}
 
 
@@ -108,11 +110,28 @@ def history(h: Harness, spec, rng):
                 st, v = guard("create_node", f"mutate[{kind},{d}]", lambda: rep.mutate(src, rng.choice(pool)))
             else:
                 st, v = guard("create_node", f"crossover[{kind},{d}]", lambda: rep.crossover(src, pool[0], pool[-1]))
+    # subtrees requested for OTHER symbols than the root (the public `random_node`), with limits that are feasible for the root
+    # but may be too tight for the requested symbol: such a request fails, and fails without leaving a trace on the grammar
+    from geneticengine.representations.tree.treebased import random_node
+    class_syms = [t for t in g.all_nodes if t in b.index]
+    for k in range(4):
+        sym = rng.choice(class_syms)
+        kind = rng.choice(["grow", "full", "pigrow"])
+        d = max(0, mind + rng.choice([0, 0, 1, 2]))
+        with warnings.catch_warnings():
+            warnings.simplefilter("ignore")
+            st, dec = safe(lambda: synth.make_decider(kind, d, src, g))
+            if st == "ok":
+                guard("random_node", f"random_node({getattr(sym, '__name__', sym)}) with {kind}({d}) [min depth of that symbol {g.distanceToTerminal[sym]}]",
+                      lambda: random_node(src, g, sym, dec))
+                h.count("random_node:non-root" if sym is not g.starting_symbol else "random_node:root")
     # other grammars over the same classes come into being while this one is in use
     from geneticengine.grammar.grammar import extract_grammar
     guard("usable_grammar", "g.usable_grammar()", lambda: g.usable_grammar())
     guard("extract_grammar", "extract_grammar(same classes, other depth mode)", lambda: extract_grammar(b.considered(), b.start, not spec.expansion))
-    if len(b.considered()) > 1:
+    # (not for weighted grammars: production weights are stored on the classes, so a grammar over OTHER sibling sets re-normalises
+    # what this grammar reads -- extracting a different grammar is not one of the operations C10 speaks of; recorded as an observation)
+    if len(b.considered()) > 1 and not any(c.weight is not None for c in spec.classes):
         guard("extract_grammar", "extract_grammar(subset of the productions)", lambda: extract_grammar(b.considered()[1:], b.start, spec.expansion))
     # linear representations
     shared = NativeRandomSource(seedv)
@@ -306,6 +325,12 @@ def corpus():
         # below a list
         out.append(gram.Spec([C("A0", True, None), C("Leaf", False, 0, []), C("Sel", True, None), C("Pick", False, 2, failing),
                               C("Many", False, 0, [("xs", ("ann", ("list", ("cls", 2)), ("listSize", 1, 2)))])], 0, [4, 1, 3, 2]))
+    # production weights with a sibling production that has NO finite derivation (Loop needs a B, every B needs a B): whatever
+    # other grammars are derived from this one (the usable sub-grammar drops or keeps such productions), its weights stay
+    out.append(gram.Spec([C("A0", True, None), C("Lit", False, 0, [("k", ("ann", "int", ("intRange", 0, 3)))], weight=2), C("Neg", False, 0, [("e", ("cls", 0))], weight=1),
+                          C("B", True, None), C("Only", False, 3, [("b", ("cls", 3))]), C("Loop", False, 0, [("b", ("cls", 3))], weight=1)], 0, [1, 2, 4, 5, 3]))
+    out.append(gram.Spec([C("A0", True, None), C("Lit", False, 0, [], weight=0.5), C("Pair", False, 0, [("l", ("cls", 0)), ("r", ("cls", 0))], weight=0.25),
+                          C("Stuck", False, 0, [("s", ("cls", 3))], weight=0.25)], 0, [1, 2, 3]))
     # an abstract symbol WITHOUT productions (an unimplemented extension point) used as a field type: operations that
     # meet it fail, and must leave the grammar as it was
     out.append(gram.Spec([C("A0", True, None), C("Leaf", False, 0, [("k", ("ann", "int", ("intRange", 0, 3)))]), C("Plugin", True, None),
@@ -324,4 +349,10 @@ def run(h: Harness):
         h.count("corpus-histories", 3)
     for _ in range(h.n(60, 900)):
         spec = backtracking_spec(rng) if rng.random() < 0.6 else gram.productive_spec(rng, max_classes=rng.choice([3, 4, 6]))
+        if rng.random() < 0.25:
+            # production weights (stored on the classes; every grammar over the same classes re-normalises them)
+            for i, c in enumerate(spec.classes):
+                if c.parent is not None and rng.random() < 0.6:
+                    c.weight = rng.choice([1, 2, 3, 0.5, 0.25])
+            h.count("weighted-grammar")
         history(h, spec, rng)
